@@ -916,3 +916,8 @@ def run_part(ctx, prop):
         ctx.notes.append("DIVERGENCE: %d journal(s) of the real Transport are not behaviours of Transport.tla" % len(divs))
         print("DIVERGENCE property=%s traces=%d first=%s" % (prop, len(divs), json.dumps(divs[0])[:400]), flush=True)
     return cov
+
+
+def replay(ctx, path):
+    from engines import replayer
+    return replayer.replay(ctx, path)
